@@ -436,6 +436,12 @@ func c17ShutdownCallback(c *engine.Ctx, r2 string, pmFns []*ssa.Function, table 
 						}
 					}
 				}
+				// `cur, ok := table[p]; ok && cur == instance`: the presence test of the same lookup is part of the identity check
+				if ex, ok := cond.V.(*ssa.Extract); ok && ex.Index == 1 && cond.Pol {
+					if lkp, isL := ex.Tuple.(*ssa.Lookup); isL && isLoadOfField(lkp.X, table) && engine.SameValue(lkp.Index, del.Call.Args[1]) {
+						isIdentity = true
+					}
+				}
 				if !isIdentity {
 					extra++
 				}
